@@ -646,8 +646,46 @@ func (ex *Executor) loadElem(st *State, a *symElemAddr, t types.Type) Value {
 	return ex.havoc(st, t, "elem")
 }
 
+func (ex *Executor) bufFull(st *State, b *BufV) *Term {
+	switch c := st.Cells[b.Cell].(type) {
+	case *Term:
+		return c
+	case *BytesV:
+		return c.T
+	}
+	return nil
+}
+
+func (ex *Executor) bufSetFull(st *State, b *BufV, nw *Term) {
+	if _, ok := st.Cells[b.Cell].(*BytesV); ok {
+		st.Cells[b.Cell] = &BytesV{T: nw}
+		return
+	}
+	st.Cells[b.Cell] = nw
+}
+
+// bufWrite overwrites len(data) bytes at offset pos (relative to the view b).
+func (ex *Executor) bufWrite(st *State, b *BufV, pos, data *Term) {
+	full := ex.bufFull(st, b)
+	if full == nil {
+		st.Note("write into unknown buffer")
+		return
+	}
+	p := Add(b.Lo, pos)
+	end := Add(p, StrLen(data))
+	expr := StrCat(StrSub(full, IntLit(0), p), data, StrSub(full, end, Sub(StrLen(full), end)))
+	nw := expr
+	if len(expr.String()) > 200 {
+		// definitional naming keeps terms small
+		nw = ex.Fresh("buf", SStr)
+		st.Fact(Eq(nw, expr))
+		st.Fact(Eq(StrLen(nw), StrLen(full)))
+	}
+	ex.bufSetFull(st, b, nw)
+}
+
 func (ex *Executor) bufContent(st *State, b *BufV) *Term {
-	c, _ := st.Cells[b.Cell].(*Term)
+	c := ex.bufFull(st, b)
 	if c == nil {
 		return ex.Fresh("buf", SStr)
 	}
@@ -714,6 +752,16 @@ func (ex *Executor) sliceOp(st *State, fr *frame, x *ssa.Slice) Value {
 			return &SliceV{Cell: b.Cell, Lo: l, Hi: h}
 		}
 		if bv, ok := ex.load(st, b, nil).(*BytesV); ok {
+			if len(b.Path) == 0 {
+				l, h := IntLit(0), StrLen(bv.T)
+				if lo != nil {
+					l = lo
+				}
+				if hi != nil {
+					h = hi
+				}
+				return &BufV{Cell: b.Cell, Lo: l, Hi: h}
+			}
 			return ex.sliceBytes(st, bv.T, lo, hi, x.Pos())
 		}
 	case *SliceV:
@@ -1002,4 +1050,26 @@ func liveEntries(ex *Executor, st *State, md *MapData) []MapEntry {
 		}
 	}
 	return out
+}
+
+func (ex *Executor) storeElem(st *State, a *symElemAddr, v Value) {
+	switch {
+	case a.S != nil:
+		arr, _ := st.Cells[a.S.Cell].(*ArrayV)
+		if arr == nil {
+			break
+		}
+		n := &ArrayV{E: append([]Value(nil), arr.E...)}
+		for i := a.S.Lo; i < a.S.Hi; i++ {
+			n.E[i] = ex.iteValue(st, Eq(a.Idx, IntLit(int64(i-a.S.Lo))), v, arr.E[i])
+		}
+		st.Cells[a.S.Cell] = n
+		return
+	case a.Buf != nil:
+		if vt, ok := v.(*Term); ok {
+			ex.bufWrite(st, a.Buf, a.Idx, byteStr(vt))
+			return
+		}
+	}
+	st.Note("store through symbolic element address")
 }
